@@ -153,4 +153,32 @@ theorem aux_crossSingleton_flatten (sv : List Val) (as os : List Batch) (hlen : 
     | none =>
       simp [crossSingletonStaticRun, hv, aux_crossSingleton_none as os (by simpa using hlen) hos]
 
+/-! ### the machines are the usual list functions -/
+
+theorem aux_enum (n : Nat) (l : List Val) :
+    (mealyList enumStep n l).2 = (l.zipIdx n).map (fun p => Val.pair (.int p.2) p.1) := by
+  induction l generalizing n with
+  | nil => simp [mealyList]
+  | cons x xs ih => simp [mealyList, enumStep, ih, List.zipIdx_cons]
+
+theorem aux_reduce (f : Val → Val → Val) (l : List Val) :
+    l.foldl (reduceStep f) none = match l with | [] => none | x :: xs => some (xs.foldl f x) := by
+  cases l with
+  | nil => rfl
+  | cons x xs =>
+    simp only [List.foldl_cons, reduceStep]
+    generalize x = a
+    induction xs generalizing a with
+    | nil => rfl
+    | cons y ys ih => simp [List.foldl_cons, reduceStep, ih]
+
+theorem aux_uniq_sublist (seen l : List Val) : (mealyList uniqStep seen l).2.Sublist l := by
+  induction l generalizing seen with
+  | nil => simp [mealyList]
+  | cons x xs ih =>
+    by_cases hx : x ∈ seen
+    · simpa [mealyList, uniqStep, hx] using (ih seen).cons x
+    · simpa [mealyList, uniqStep, hx] using (ih (x :: seen)).cons_cons x
+
+
 end HvHydro
